@@ -11,7 +11,7 @@ def step (_ : Unit) (ws : List String) : Unit × String :=
   match ws with
   | "up" :: _ => ((), "ok")
   | ["start", _] | ["kill", _] | ["stop", _] | ["cont", _] | ["settle", _] => ((), "ok")
-  | "pub" :: _ | "rm" :: _ | "reg" :: _ | "dereg" :: _ | "beat" :: _ => ((), "*")
+  | "pub" :: _ | "rm" :: _ | "reg" :: _ | "dereg" :: _ | "beat" :: _ | "greg" :: _ | "gdereg" :: _ => ((), "*")
   | "get" :: _ => ((), "*")
   | "getall" :: _ => ((), "all **")
   | "listall" :: _ => ((), "lists **")
@@ -29,6 +29,9 @@ structure SpecSt where
   insts : List (String × String × Bool) := []            -- service, "ip:port", registered? (acknowledged ops only)
   unsure : List (String × String) := []                  -- instance ops that were not acknowledged
   formed : Bool := true                                  -- did the cluster form? (otherwise the scenario says nothing)
+  gheld : List (String × String × String) := []          -- node, service, "ip:port": instances registered over a gRPC connection to that node
+  gdead : List (String × String) := []                   -- service, address: held by the connections of a node that was killed
+  sinceKill : Nat := 0                                   -- settling time (ms) since that kill
 
 def showV (v : Option String) : String := match v with | some x => x | none => "none"
 
@@ -68,6 +71,24 @@ def specStep (s : SpecSt) (ws : List String) : SpecSt × String :=
       -- the nodes agree, not which of two operations issued back to back through different nodes is the later one
       ({ s0 with unsure := (svc, s!"{ip}:{port}") :: s.unsure,
                  insts := s.insts.filter (fun e => !(e.1 == svc && e.2.1 == s!"{ip}:{port}")) }, "-")
+    | ["greg", _, i, svc, ip, port] =>
+      if ans == ["ok"] then
+        ({ s0 with insts := (svc, s!"{ip}:{port}", true) :: s.insts.filter (fun e => !(e.1 == svc && e.2.1 == s!"{ip}:{port}")),
+                   gheld := (i, svc, s!"{ip}:{port}") :: s.gheld }, "-")
+      else ({ s0 with unsure := (svc, s!"{ip}:{port}") :: s.unsure }, "-")
+    | ["gdereg", _, svc, ip, port] =>
+      ({ s0 with unsure := (svc, s!"{ip}:{port}") :: s.unsure,
+                 insts := s.insts.filter (fun e => !(e.1 == svc && e.2.1 == s!"{ip}:{port}")),
+                 gheld := s.gheld.filter (fun e => !(e.2.1 == svc && e.2.2 == s!"{ip}:{port}")) }, "-")
+    | ["kill", i] =>
+      -- the ephemeral instances held by the gRPC connections of a dead node must disappear from the other nodes
+      let mine := (s.gheld.filter (·.1 == i)).map (·.2)
+      ({ s0 with gdead := mine ++ s.gdead, sinceKill := 0, unsure := mine ++ s.unsure }, "-")
+    | ["start", i] =>
+      -- the clients reconnect to the restarted node and register again: presence is not predicted any more
+      let back := (s.gheld.filter (·.1 == i)).map (·.2)
+      ({ s0 with gdead := s.gdead.filter (fun e => !back.contains e) }, "-")
+    | ["settle", ms] => ({ s0 with sinceKill := s.sinceKill + ms.toNat?.getD 0 }, "-")
     | ["getall", k] =>
       if !s.formed then (s0, "-") else
       let vals := (nodeVals (ans.drop 1)).filter (·.2 != "down")
@@ -95,7 +116,10 @@ def specStep (s : SpecSt) (ws : List String) : SpecSt × String :=
           let unsure := (s.unsure.filter (·.1 == svc)).map (·.2)
           let missing := want.filter fun a => !got.contains a && !unsure.contains a
           let extra := got.filter fun a => !want.contains a && !unsure.contains a
-          if !missing.isEmpty then (s0, s!"spec FAIL registered instances missing on every node: {missing}")
+          let ghosts := ((s.gdead.filter (·.1 == svc)).map (·.2)).filter got.contains
+          if s.sinceKill ≥ 30000 && !ghosts.isEmpty then
+            (s0, s!"spec FAIL instances held by the gRPC connections of a node that died 30 s ago are still listed: {ghosts}")
+          else if !missing.isEmpty then (s0, s!"spec FAIL registered instances missing on every node: {missing}")
           else if !extra.isEmpty then (s0, s!"spec FAIL instances returned that are not registered: {extra}")
           else (s0, "spec ok")
     | _ => (s0, "-")
